@@ -866,3 +866,18 @@ pub fn load_known() -> Vec<KnownFinding> {
 pub fn bx<T: std::fmt::Debug, S: Strategy<Value = T> + 'static>(s: S) -> BoxedStrategy<T> {
     s.boxed()
 }
+
+pub fn hex(b: &[u8]) -> String {
+    b.iter().map(|x| format!("{:02x}", x)).collect()
+}
+
+pub fn unhex(s: &str) -> Option<Vec<u8>> {
+    if s.len() % 2 != 0 {
+        return None;
+    }
+    (0..s.len() / 2).map(|i| u8::from_str_radix(s.get(2 * i..2 * i + 2)?, 16).ok()).collect()
+}
+
+pub fn replay_dir() -> String {
+    std::env::var("VERIF_REPLAY_DIR").unwrap_or_else(|_| format!("{}/replays", verif_dir()))
+}
